@@ -195,6 +195,20 @@ CLAIMED['C15'] = (
     'obligation (decidable by reading the decorator lists), not an SMT proof.',
     'contract-based deductive verification of the decorator closures (AST->VC generator, z3) + source-derived guard lemmas')
 
+CLAIMED['C05'] = (
+    'DESIGN.md 0a (C05)',
+    'Reduced scope: the first sentence of the statement only (stored or requested strings can never add, remove or break elements). '
+    'Proof: xmlSafe escapes & < > \" (ampersand first, so its own entities are not escaped again), maps None to the empty string '
+    'and accepts non-strings - every character class, an entity-like text and a mixed text are discharged, which covers all inputs '
+    'because str.replace with a one-character pattern acts per character. Template table, regenerated from the template files on '
+    'every run: every interpolation of the manifest, patch, DRM, event and segment-list templates passes through a filter that '
+    'produces XML-safe text or is an integer / server-generated token / XML fragment serialised by the server itself.',
+    'Trusted / not covered: Jinja semantics (autoescape off, filters applied as functions), the classification of NUMERIC / FIXED '
+    'expressions in contracts/xml_scan.py (read from the code, not proved), the formatting filters\' alphabets (ISO text: C19). NOT '
+    'covered: the structural MPD rules (required attributes, lexical validity, unique ids, non-empty AdaptationSets, URL template '
+    'identifiers). Known finding: a custom-attribute element name is rendered verbatim. The template table is a syntactic obligation.',
+    'contract-based deductive verification of the escaping filter + source-derived template lemmas')
+
 CLAIMED['C04'] = (
     'DESIGN.md 4 C04 / 0a',
     'Reduced scope. Proof, per box class (mfhd, mehd, trex, tfdt, tfhd with all 2^5 optional-field combinations, trun header and trun '
@@ -229,7 +243,6 @@ CLAIMED['C03'] = (
     'contract-based deductive verification (AST->VC generator, z3 + cvc5), native replay')
 
 NOT_APPLICABLE = {
-    'C05': 'XML documents come out of Jinja templates rendered by an external engine; no function contract reaches them and the app cannot be instantiated offline (flask_login missing).',
     'C07': 'Identity of string transducers (quote_plus, regex date parsing, split) over a registry built with getattr; SMT string solvers leave these undecided; a proof over only int/bool options would not decide the property.',
     'C17': 'Histories of ORM operations and cascades; needs a model of SQLAlchemy, which would be proving a model, not the code.',
     'C18': 'Whole-system differential property of the validator over generated streams.',
